@@ -375,7 +375,8 @@ theorem C13_str_same_name_noop (rec : Node → Node → Except Err (Node × Bool
     rw [← h1, native_propagate]
     simp [native]
   · rw [if_neg hp]
-    exact ⟨_, scs, rfl, rfl, by simp [native]⟩
+    obtain ⟨cs', h1, h2, h3⟩ := propagate_shape (replaceOtherFlags sf of) sf sk scs
+    exact ⟨_, cs', by rw [h1], h2, h3⟩
 
 example : funcMerge (mergeF 0) { del := some true } (.call "m.f") "m.f"
     [(.str "a", .leaf { iDel := some true } (.scalar (.int 1)))] (.leaf {} (.scalar (.str "m.f"))) =
@@ -396,16 +397,24 @@ example : funcMerge (mergeF 0) { del := some true } (.call "m.f") "m.f"
     .ok (.comp {} (.call "m.g") [], true) := rfl
 
 /- an outranked string (the function node has the higher priority) changes neither target nor
-   arguments, whatever its name -/
+   arguments, whatever its name: the result is `self` with the flags `_replace_other`, its inherited
+   flags handed down to the arguments again (`propagate`) — same class and target, same flags of
+   the node, same argument keys in order, same data -/
 theorem C13_str_outranked_noop (rec : Node → Node → Except Err (Node × Bool)) (sf : Flags)
     (sk : CompKind) (f : String) (scs : List (Key × Node)) (of : Flags) (lk : LeafKind)
     (hstr : lk.isStr = true) (hp : hasPrio of sf true = false) :
-    funcMerge rec sf sk f scs (.leaf of lk) = .ok (.comp (replaceOtherFlags sf of) sk scs, true) := by
-  simp [funcMerge, hstr, hp]
+    funcMerge rec sf sk f scs (.leaf of lk) =
+      .ok (propagate (.comp (replaceOtherFlags sf of) sk scs), true) ∧
+    ∃ cs, propagate (.comp (replaceOtherFlags sf of) sk scs) = .comp (replaceOtherFlags sf of) sk cs ∧
+      cs.map (·.1) = scs.map (·.1) ∧
+      native (.comp (replaceOtherFlags sf of) sk cs) = native (.comp sf sk scs) :=
+  ⟨by simp [funcMerge, hstr, hp], propagate_shape _ _ _ _⟩
 
+-- (the argument now carries the `delete` the surviving node hands down: `_replace_other` re-propagates)
 example : funcMerge (mergeF 0) { prio := some 1, del := some true } (.call "m.f") "m.f"
     [(.str "a", .leaf {} (.scalar (.int 1)))] (.leaf {} (.scalar (.str "m.g"))) =
-    .ok (.comp { prio := some 1, del := some true } (.call "m.f") [(.str "a", .leaf {} (.scalar (.int 1)))], true) := rfl
+    .ok (.comp { prio := some 1, del := some true } (.call "m.f")
+      [(.str "a", .leaf { iDel := some true } (.scalar (.int 1)))], true) := rfl
 
 /- "a different target name (… or another function node) replaces the target and drops the old
    arguments unless told to merge" — deleting other (the default: function nodes are constructed
@@ -419,7 +428,7 @@ theorem C13_func_other_target_replaces (rec : Node → Node → Except Err (Node
     funcMerge rec sf sk f scs (.comp of ok ocs) =
       match reqNew [[]] [] (.comp of ok ocs) with
       | some p => .error (.notnew p)
-      | none => .ok (.comp (replaceOtherFlags of sf) ok ocs, false) := by
+      | none => .ok (propagate (.comp (replaceOtherFlags of sf) ok ocs), false) := by
   have hskf : sk.isFunc = true := isFunc_of_func? hsk
   have hokf : ok.isFunc = true := isFunc_of_func? hok
   have hsk' : (sk.setFunc g).isFunc = true := isFunc_of_func? (setFunc_func? g hsk)
@@ -475,19 +484,25 @@ example : mergeF 2 (.comp { del := some true } (.call "m.f") [(.str "a", .leaf {
       [(.str "a", .leaf { iDel := some false } (.scalar (.int 1))), (.str "b", .leaf { iDel := some false } (.scalar (.int 2)))], true) := rfl
 
 /- a function node with a different target that is outranked by `self` changes neither the target
-   nor the arguments -/
+   nor the arguments (same shape of the result as in `C13_str_outranked_noop`) -/
 theorem C13_func_other_target_outranked_noop (rec : Node → Node → Except Err (Node × Bool))
     (sf : Flags) (sk : CompKind) (f g : String) (scs : List (Key × Node)) (of : Flags)
     (ok : CompKind) (ocs : List (Key × Node))
     (hok : ok.func? = some g) (hdiff : g ≠ f) (hp : hasPrio of sf true = false) :
-    funcMerge rec sf sk f scs (.comp of ok ocs) = .ok (.comp (replaceOtherFlags sf of) sk scs, true) := by
+    funcMerge rec sf sk f scs (.comp of ok ocs) =
+      .ok (propagate (.comp (replaceOtherFlags sf of) sk scs), true) ∧
+    ∃ cs, propagate (.comp (replaceOtherFlags sf of) sk scs) = .comp (replaceOtherFlags sf of) sk cs ∧
+      cs.map (·.1) = scs.map (·.1) ∧
+      native (.comp (replaceOtherFlags sf of) sk cs) = native (.comp sf sk scs) := by
+  refine ⟨?_, propagate_shape _ _ _ _⟩
   simp only [funcMerge, hok, hp]
   rw [if_pos (by simpa using hdiff)]
   simp
 
 example : funcMerge (mergeF 0) { prio := some 1, del := some true } (.call "m.f") "m.f"
     [(.str "a", .leaf {} (.scalar (.int 1)))] (.comp { del := some true } (.call "m.g") []) =
-    .ok (.comp { prio := some 1, del := some true } (.call "m.f") [(.str "a", .leaf {} (.scalar (.int 1)))], true) := rfl
+    .ok (.comp { prio := some 1, del := some true } (.call "m.f")
+      [(.str "a", .leaf { iDel := some true } (.scalar (.int 1)))], true) := rfl
 
 /- "a function node with the same target replaces the arguments by default": same target, other
    deleting (the default) and not outranked, and no argument of `self` outranks the node of `other`
@@ -504,7 +519,7 @@ theorem C13_func_same_target_replaces_args (rec : Node → Node → Except Err (
       match reqNew ([] :: (filterNode (maybeKeep (.comp of ok ocs)) [] (.comp sf sk scs)).2) []
           (.comp of ok ocs) with
       | some p => .error (.notnew p)
-      | none => .ok (.comp (replaceOtherFlags of sf) ok ocs, false) := by
+      | none => .ok (propagate (.comp (replaceOtherFlags of sf) ok ocs), false) := by
   have hskf : sk.isFunc = true := isFunc_of_func? hsk
   have hokf : ok.isFunc = true := isFunc_of_func? hok
   simp only [funcMerge, hok, bne_self_eq_false, Bool.false_eq_true, if_false]
@@ -553,14 +568,15 @@ theorem C13_mapping_updates_args_keywise (rec : Node → Node → Except Err (No
   -- both shapes of a merged `self` have class `sk`, the keys and the data of `scs'`
   have hshape : ∀ scs' : List (Key × Node), ∃ fl cs,
       (if hasPrio of sf true then propagate (.comp (replaceSelfFlags sf of) sk scs')
-       else Node.comp (replaceOtherFlags sf of) sk scs') = .comp fl sk cs ∧
+       else propagate (.comp (replaceOtherFlags sf of) sk scs')) = .comp fl sk cs ∧
       cs.map (·.1) = scs'.map (·.1) ∧ native (.comp fl sk cs) = native (.comp sf sk scs') := by
     intro scs'
     by_cases hp : hasPrio of sf true = true
     · obtain ⟨cs', h1, h2⟩ := propagate_kind (replaceSelfFlags sf of) sk scs'
       refine ⟨_, cs', by rw [if_pos hp, h1], h2, ?_⟩
       rw [← h1, native_propagate]; simp [native]
-    · exact ⟨_, scs', by rw [if_neg hp], rfl, by simp [native]⟩
+    · obtain ⟨cs', h1, h2, h3⟩ := propagate_shape (replaceOtherFlags sf of) sf sk scs'
+      exact ⟨_, cs', by rw [if_neg hp, h1], h2, h3⟩
   simp only [funcMerge, CompKind.func?] at h
   rw [compMerge_func_plain rec sf sk scs of .dict ocs hskf (Or.inl rfl)] at h
   constructor
@@ -571,8 +587,10 @@ theorem C13_mapping_updates_args_keywise (rec : Node → Node → Except Err (No
         · cases h
         · split at h
           · cases h
-          · simp only [Except.ok.injEq, Prod.mk.injEq] at h
-            exact ⟨_, _, h.1.symm⟩
+          · rename_i cs0 _
+            simp only [Except.ok.injEq, Prod.mk.injEq] at h
+            obtain ⟨cs', h1, _⟩ := propagate_kind (replaceOtherFlags of sf) sk cs0
+            exact ⟨_, cs', by rw [← h.1, h1]⟩
       · split at h
         · cases h
         · rename_i scs' _
@@ -617,16 +635,17 @@ theorem C13_list_supplies_positional_args (rec : Node → Node → Except Err (N
     (∃ fl cs, r = .comp fl sk cs) ∧
     (eDel (.comp of .list ocs) = true → hasPrio of sf true = true →
       ArgsYield scs (.comp of .list ocs) →
-      ∃ cs, adoptAll sf sk ocs [] = .ok cs ∧ r = .comp (replaceOtherFlags of sf) sk cs) := by
+      ∃ cs, adoptAll sf sk ocs [] = .ok cs ∧ r = propagate (.comp (replaceOtherFlags of sf) sk cs)) := by
   have hskf : sk.isFunc = true := isFunc_of_func? hsk
   have hshape : ∀ scs' : List (Key × Node), ∃ fl cs,
       (if hasPrio of sf true then propagate (.comp (replaceSelfFlags sf of) sk scs')
-       else Node.comp (replaceOtherFlags sf of) sk scs') = .comp fl sk cs := by
+       else propagate (.comp (replaceOtherFlags sf of) sk scs')) = .comp fl sk cs := by
     intro scs'
     by_cases hp : hasPrio of sf true = true
     · obtain ⟨cs', h1, _⟩ := propagate_kind (replaceSelfFlags sf of) sk scs'
       exact ⟨_, cs', by rw [if_pos hp, h1]⟩
-    · exact ⟨_, scs', by rw [if_neg hp]⟩
+    · obtain ⟨cs', h1, _⟩ := propagate_kind (replaceOtherFlags sf of) sk scs'
+      exact ⟨_, cs', by rw [if_neg hp, h1]⟩
   simp only [funcMerge, CompKind.func?] at h
   rw [compMerge_func_plain rec sf sk scs of .list ocs hskf (Or.inr rfl)] at h
   constructor
@@ -637,8 +656,10 @@ theorem C13_list_supplies_positional_args (rec : Node → Node → Except Err (N
         · cases h
         · split at h
           · cases h
-          · simp only [Except.ok.injEq, Prod.mk.injEq] at h
-            exact ⟨_, _, h.1.symm⟩
+          · rename_i cs0 _
+            simp only [Except.ok.injEq, Prod.mk.injEq] at h
+            obtain ⟨cs', h1, _⟩ := propagate_kind (replaceOtherFlags of sf) sk cs0
+            exact ⟨_, cs', by rw [← h.1, h1]⟩
       · split at h
         · cases h
         · rename_i scs' _
